@@ -152,7 +152,9 @@ impl SignatureConverter<'_> {
 
         for param in params.into_iter() {
             match &param {
-                syn::GenericParam::Type(_) => {}
+                // type and const parameters are lifted to the trait
+                // (declaring a const parameter on the method as well is E0403)
+                syn::GenericParam::Type(_) | syn::GenericParam::Const(_) => {}
                 _ => {
                     generics.params.push(param);
                 }
